@@ -57,6 +57,38 @@ Fourth-wave families (both tiers; alphabets in mc/domains/w4_c12.py):
   unit ever loaded and b is loaded for the first time after it); and one
   walk of 442 files in which every ordered pair, twice the same included,
   occurs as two consecutive files.  Every file must load as it does alone.
+
+Fifth-wave families (both tiers; alphabets in mc/domains/w5_c12.py):
+
+* shapes of one unit expression: `energy/(mol K)` written in every way the
+  documented unit grammar offers for a denominator - behind the energy name
+  as `/d`, `/(d)`, ` d^-1`, `*d^-1`, ` d^(-1)`, ` 1/d`, `*(1/d)`, ` (1/d)`,
+  in front of it as `1/d `, `1/d*`, `(1/d) `, `d^-1 `, `d^(-1)*`, `1/(d) `,
+  the two denominators also grouped (`/(a b)`, ` (a*b)^-1`, ` 1/(a b)`,
+  `1/(a*b) `, `(1/a/b)*` ...), all combinations in both orders of (mol, K):
+  326 entropy / heat-capacity shapes and 14 enthalpy shapes, each as
+  file-level default and as explicit unit (652 files per record; energy names
+  kcal, J, cal, kJ rotate), on the 2-record core (thorough: 8 records);
+* YAML scalar styles of bare numbers (those that rely on a default unit, and
+  non-dimensional values): plain float (as before), plain integer, single-
+  quoted, double-quoted, single- / double-quoted integer: each of the 5 new
+  styles on all bare numbers of the file x all 54 mode combinations, and on
+  the bare numbers of one kind (H, S, Cp, temperature) alone x that kind in
+  {default, non-dimensional} x the other kinds in 3 modes x 2 temperature
+  modes (475 files per record, 2-record core; thorough: 8); and the
+  missing-unit clause with the orphaned bare numbers in each new style (3
+  records x 4 kinds x 5 styles x 3 presentations of the other kinds, each
+  with a loading control);
+* one group's data split over the files of an include tree: every assignment
+  of the pieces {H_ref, S_ref, even-numbered table points, odd-numbered table
+  points, range} of a record to (loaded file, included file) that leaves
+  neither empty and each block valid on its own x all 9 pairs of value modes
+  (738 libraries over a 5-record core with zero H, zero S, both zero), and H,
+  S, the rest in the three files of an include chain / fan x all 6
+  assignments x 6 mode triples (288 libraries).  Every file has its own
+  units block (different default units), the same T_ref (for 298.15 K
+  written or left to the default, rotating).  The merged group must load
+  like the whole record alone.
 """
 import itertools
 import os
@@ -67,6 +99,7 @@ from ..runner import Result
 from ..domains import estimates as E
 from ..domains import w3_c12 as W
 from ..domains import w4_c12 as X
+from ..domains import w5_c12 as Y
 
 TWO_HASH_SEEDS = ('quick', 'thorough')   # tiers in which the space is walked under a second PYTHONHASHSEED
 LEVEL = 'exploration'
@@ -103,13 +136,27 @@ BOUND = {'quick': '96 records x 54 mode combinations (3 modes for each of H, S, 
                   'loading control); load histories in forked copies of a fresh '
                   'interpreter, letters {no prefix, 20 SI prefixes} x 3 prefix '
                   'positions (J, mol, K): 21 histories "first letter, then all 21 letters" and one '
-                  'walk of 442 files with every ordered pair of letters as neighbours'
-                  % (len(W.energy_exprs()), len(W.energy_exprs())),
+                  'walk of 442 files with every ordered pair of letters as neighbours; '
+                  'unit shapes: %d writings of energy/(mol K) (and %d of energy/mol) by '
+                  '/, *, juxtaposition, ^-1, ^(-1), 1/d, parentheses, leading or '
+                  'trailing, grouped or separate, both orders x {default, explicit} x 2 '
+                  'records; scalar styles: 5 new styles {integer, single-quoted, '
+                  'double-quoted, single- / double-quoted integer} of bare numbers, '
+                  'on all kinds x 54 mode combinations '
+                  'and on each kind alone, x 2 records, and in the missing-unit clause '
+                  '(3 records x 4 kinds x 5 styles x 3 presentations of the others); '
+                  'splits: every valid assignment of {H, S, even / odd table points, '
+                  'range} to (loaded file, included file) x 9 mode pairs and {H, S, '
+                  'rest} over include chains / fans of three files x 6 assignments x 6 '
+                  'mode triples, 5 records'
+                  % (len(W.energy_exprs()), len(W.energy_exprs()),
+                     len(Y.entropy_shapes()), len(Y.enthalpy_shapes())),
          'thorough': 'additionally the full product of modes and units for a '
                      '6-record core (every zero/non-zero combination); the unit-space '
                      'and prefix families on that core as well (8 records), and the '
                      'spelling family on those 8 records; layouts and load histories '
-                     'as in quick'}
+                     'as in quick; unit shapes and scalar styles on those 8 records; '
+                     'missing-unit styles and splits as in quick'}
 RULE = ('every presentation of every record is loaded; its reference values, '
         'table, range and reference temperature are compared with the record '
         'converted by the harness\'s own unit factors (1e-9; 1e-6 where eV per '
@@ -125,7 +172,12 @@ RULE = ('every presentation of every record is loaded; its reference values, '
         'explicit strings, in another file layout (there also the other group '
         'of the library), or loaded after another file in the same process.  '
         'A missing-unit file must make Load raise in every layout (its control '
-        'with the unit in place must load)')
+        'with the unit in place must load), also when its bare numbers are '
+        'quoted or integers.  A unit written in another shape is converted '
+        'by the reference unit model reading that text; a record whose bare '
+        'numbers are written in another YAML scalar style, or whose pieces are '
+        'split over the files of an include tree, is judged exactly like the '
+        'record alone in one file (fields and getters)')
 ASSUMPTIONS = ['the gas constant used for non-dimensionalisation is the '
                'library\'s own (pgradd.Consts), required to lie within 1e-5 of '
                '8.31446 J/mol/K',
@@ -151,7 +203,17 @@ ASSUMPTIONS = ['the gas constant used for non-dimensionalisation is the '
                'the starting state of a load history is a fresh interpreter that '
                'has imported pgradd and loaded one library file without any unit '
                'text (non-dimensional keys only); os.fork() copies that state '
-               'faithfully']
+               'faithfully',
+               'a bare number may be written as any YAML scalar whose text is '
+               'the number: plain float, plain integer, or quoted (the loader '
+               'documents "explicit unit, else default unit of the kind"; a '
+               'quoted number has no explicit unit).  Quoted numbers are written '
+               'without exponent',
+               'the pieces of a group may be spread over the files of an include '
+               'tree (the loader merges included files into the group) provided '
+               'every file\'s block is valid on its own (T_ref inside its range '
+               'or table span) and all name the same T_ref; conflicting or '
+               'overlapping pieces are C13\'s subject, not enumerated here']
 MANIFEST = dict(
     technique='exhaustive enumeration of records x unit presentations loaded '
               'from generated files, differential against the non-dimensional '
@@ -172,7 +234,12 @@ MANIFEST = dict(
          'every prefix); the data placed in included files (7 layouts), '
          'the missing-unit clause in each of them; and every ordered pair '
          'of prefixed units loaded one after the other in a process that '
-         'has loaded nothing with units before.',
+         'has loaded nothing with units before; every way of writing the '
+         'denominators of a unit (/, ^-1, 1/d in front or behind, grouped '
+         'in parentheses); bare numbers written as integers or quoted '
+         'scalars (also in the missing-unit clause); and the pieces of one '
+         'group spread over two or three files of an include tree, each '
+         'with its own default units.',
     note='Values come from a small alphabet including zero and negative '
          'numbers; mixed units inside one Cp table are exercised through '
          'per-point explicit units.',
@@ -276,42 +343,53 @@ def tfact(u):
     return _FACT['T', u]
 
 
-def body(rec, mH, mS, mC, mT, uH, uS, uC, uT, R0, units, omit_tref=False, spell=None):
+def body(rec, mH, mS, mC, mT, uH, uS, uC, uT, R0, units, omit_tref=False, spell=None,
+         styles=None):
     """Lines of one thermochem block; file-level defaults it relies on are
     entered into `units`.  spell = (separator, number style) of the explicit
-    '<number><separator><unit>' strings (default: one blank, positional)."""
+    '<number><separator><unit>' strings (default: one blank, positional).
+    styles = {kind in H S C T: YAML scalar style of that kind's bare numbers}
+    (default: plain float).  A record whose H / S is None (a part of a split
+    record) gets no line for it."""
     sep, style = spell or X.OLD_SPELLING
+    styles = styles or {}
 
     def expl(v, u):
         return '%s%s%s' % (X.spell_number(v, style), sep, u)
+
+    def bare(v, kind):
+        st = styles.get(kind, Y.OLD_STYLE)
+        return W.yaml_float(v) if st == Y.OLD_STYLE else Y.spell_bare(v, st)
 
     def temp(T):
         v = T / tfact(uT)
         if mT == 'default':
             units['temperature'] = uT
-            return bare(v)
+            return bare(v, 'T')
         return expl(v, uT)
     lines = []
     if not omit_tref:
         lines.append('      T_ref: %s' % temp(rec['tref']))
-    Hj = rec['H'] * 4184.0
-    Sj = rec['S'] * 4.184
-    if mH == 'nd':
-        lines.append('      ND_H_ref: %s' % bare(Hj / (R0 * rec['tref'])))
+    if rec['H'] is None:
+        pass
+    elif mH == 'nd':
+        lines.append('      ND_H_ref: %s' % bare(rec['H'] * 4184.0 / (R0 * rec['tref']), 'H'))
     else:
-        v = Hj / hfact(uH)
+        v = rec['H'] * 4184.0 / hfact(uH)
         if mH == 'default':
             units['molar enthalpy'] = uH
-            lines.append('      H_ref: %s' % bare(v))
+            lines.append('      H_ref: %s' % bare(v, 'H'))
         else:
             lines.append('      H_ref: %s' % expl(v, uH))
-    if mS == 'nd':
-        lines.append('      ND_S_ref: %s' % bare(Sj / R0))
+    if rec['S'] is None:
+        pass
+    elif mS == 'nd':
+        lines.append('      ND_S_ref: %s' % bare(rec['S'] * 4.184 / R0, 'S'))
     else:
-        v = Sj / sfact(uS)
+        v = rec['S'] * 4.184 / sfact(uS)
         if mS == 'default':
             units['molar entropy'] = uS
-            lines.append('      S_ref: %s' % bare(v))
+            lines.append('      S_ref: %s' % bare(v, 'S'))
         else:
             lines.append('      S_ref: %s' % expl(v, uS))
     if rec['table']:
@@ -319,10 +397,10 @@ def body(rec, mH, mS, mC, mT, uH, uS, uC, uT, R0, units, omit_tref=False, spell=
         for k, (T, cp) in enumerate(rec['table']):
             cj = cp * 4.184
             if mC == 'nd':
-                lines.append('        - [%s, %s]' % (temp(T), bare(cj / R0)))
+                lines.append('        - [%s, %s]' % (temp(T), bare(cj / R0, 'C')))
             elif mC == 'default':
                 units['molar heat capacity'] = uC
-                lines.append('        - [%s, %s]' % (temp(T), bare(cj / sfact(uC))))
+                lines.append('        - [%s, %s]' % (temp(T), bare(cj / sfact(uC), 'C')))
             else:
                 # explicit: rotate the unit from point to point (units outside
                 # the rotating alphabet are used for every point)
@@ -345,10 +423,10 @@ def head(units):
 
 
 def render(rec, mH, mS, mC, mT, uH, uS, uC, uT, R0, drop_default=None,
-           omit_tref=False, spell=None, group=GROUP):
+           omit_tref=False, spell=None, group=GROUP, styles=None):
     """-> YAML text.  m* in MODES (mT in default/explicit)."""
     units = {}
-    lines = body(rec, mH, mS, mC, mT, uH, uS, uC, uT, R0, units, omit_tref, spell)
+    lines = body(rec, mH, mS, mC, mT, uH, uS, uC, uT, R0, units, omit_tref, spell, styles)
     if drop_default:
         units.pop(drop_default, None)
     return '\n'.join(head(units) + ["  '%s':" % group, '    thermochem:'] + lines) + '\n'
@@ -500,10 +578,10 @@ def judge(k, rec, pres, R0, base_obs, interior=False):
 
 
 def check(R, rec, pres, R0, base_obs, wit, fam='presentation', interior=False,
-          spell=None):
+          spell=None, styles=None):
     mH, mS, mC, mT, uH, uS, uC, uT = pres
     text = render(rec, mH, mS, mC, mT, uH, uS, uC, uT, R0,
-                  spell=tuple(spell) if spell else None)
+                  spell=tuple(spell) if spell else None, styles=styles)
     R.evals += 1
     if (mH, mS, mC) != ('nd', 'nd', 'nd') or rec['H'] == 0 or rec['S'] == 0:
         R.nontrivial += 1
@@ -522,8 +600,9 @@ def check(R, rec, pres, R0, base_obs, wit, fam='presentation', interior=False,
     R.outcomes[(fam + ':' if new else '') + ('same' if not probs else 'differs')] += 1
     if probs:
         R.violation('%s:%s:%s' % (fam, probs[0].split(' ')[0], zero_tag(rec)),
-                    '%r presented as %r%s: %s' % (
+                    '%r presented as %r%s%s: %s' % (
                         short(rec), pres, ' spelled %r' % (tuple(spell),) if spell else '',
+                        ' with bare numbers written as %r' % (styles,) if styles else '',
                         probs[0])
                     + ('\n' + text if new else ''), wit)
     elif (mH, mS, mC) == ('default', 'explicit', 'nd'):
@@ -623,7 +702,7 @@ def run_case(R, w, R0=None, base_obs=None):
         R0 = gas_constant()
         base_obs = base_of(rec, R0, w['interior'])
     check(R, rec, tuple(w['pres']), R0, base_obs, w, fam=w['fam'], interior=w['interior'],
-          spell=w.get('spell'))
+          spell=w.get('spell'), styles=w.get('styles'))
 
 
 # ---- two groups in one file
@@ -1043,6 +1122,205 @@ def run_history(R, pos):
     run_histories(R, list(histories(pos)))
 
 
+# ---- fifth wave: shapes of one unit expression
+
+def run_shapes(R, idx, half):
+    """One record through one half of the unit shapes (default + explicit)."""
+    rec = records()[idx]
+    R0 = gas_constant()
+    base_obs = base_of(rec, R0)
+    cases = list(Y.shape_presentations())
+    mid = len(cases) // 2
+    for n, (m, uH, uS, uC) in enumerate(cases):
+        if (n >= mid) != bool(half):
+            continue
+        run_case(R, dict(kind='case', fam='shape', pool='records', record=idx,
+                         pres=[m, m, m, ('default', 'explicit')[(n // 2) % 2], uH, uS, uC, 'K'],
+                         interior=False), R0, base_obs)
+
+
+# ---- fifth wave: YAML scalar styles of bare numbers
+
+def style_cases(idx):
+    """Every new style on all bare numbers of the file x all 54 mode
+    combinations; every new style on the bare numbers of one kind x that kind
+    in {default, non-dimensional} presentation, the other kinds in each of the
+    three modes.  Cases in which no bare number would carry the style (an
+    explicit presentation has none) are left out.  Units rotate."""
+    rec = records()[idx]
+    n = 0
+
+    def units(n):
+        return [H_UNITS[n % len(H_UNITS)], S_UNITS[n % 4], S_UNITS[(n // 2) % 4], T_UNITS[n % 3]]
+
+    def styled(styles, modes):
+        present = dict(H=True, S=True, C=bool(rec['table']), T=True)
+        return any(present[k] and modes[k] != 'explicit' for k in styles)
+    for styles in Y.style_assignments():
+        if len(styles) == len(Y.KINDS):
+            combos = [(mH, mS, mC, mT) for mH, mS, mC in itertools.product(MODES, repeat=3)
+                      for mT in ('default', 'explicit')]
+        else:
+            (k,) = styles
+            combos = []
+            for own in (('default',) if k == 'T' else ('default', 'nd')):
+                for others in MODES:
+                    for oT in ('default', 'explicit'):
+                        m = {q: (own if q == k else others) for q in 'HSC'}
+                        combos.append((m['H'], m['S'], m['C'], own if k == 'T' else oT))
+        for c in combos:
+            if not styled(styles, dict(zip('HSCT', c))):
+                continue
+            n += 1
+            yield dict(kind='case', fam='style', pool='records', record=idx,
+                       pres=list(c) + units(n), interior=False, styles=dict(styles))
+
+
+def run_styles(R, idx):
+    rec = records()[idx]
+    R0 = gas_constant()
+    base_obs = base_of(rec, R0)
+    for w in style_cases(idx):
+        run_case(R, w, R0, base_obs)
+
+
+def missing_style_cases():
+    """The missing-unit clause with the orphaned bare numbers written in each
+    new style: 3 records x the kind whose default unit is missing x 5 styles
+    x presentation of the other kinds."""
+    for idx in MISSING_RECORDS:
+        for kind in MISSING_KINDS:
+            if kind == 'molar heat capacity' and not records()[idx]['table']:
+                continue
+            for st in Y.NEW_STYLES:
+                for m in MODES:
+                    yield dict(kind='missing-style', record=idx, what=kind, others=m, style=st)
+
+
+def run_missing_style_case(R, w):
+    R0 = gas_constant()
+    rec = records()[w['record']]
+    kind, m = w['what'], w['others']
+    mH, mS, mC = [('default' if kind == k_ else m) for k_ in MISSING_KINDS[:3]]
+    mT = 'default' if kind == 'temperature' or m == 'default' else 'explicit'
+    pres = (mH, mS, mC, mT, 'kcal/mol', 'cal/(mol*K)', 'cal/(mol*K)', 'K')
+    styles = {'HSCT'[MISSING_KINDS.index(kind)]: w['style']}
+    R.evals += 1
+    R.nontrivial += 1
+    control = render(rec, *pres, R0, styles=styles)
+    try:
+        load_files({'library.yaml': control})[GROUP]['thermochem']
+    except Exception as e:      # noqa
+        R.outcomes['missing-unit:style:control-not-loaded'] += 1
+        R.violation('missing-unit-control-load-failed:style:%s' % type(e).__name__,
+                    'the control of a missing-unit case (default unit for the %s present, '
+                    'its bare numbers written as %r) could not be loaded: %s\n%s'
+                    % (kind, w['style'], e, control), w)
+        return
+    text = render(rec, *pres, R0, drop_default=kind, styles=styles)
+    try:
+        load_files({'library.yaml': text})
+    except Exception as e:      # noqa
+        R.outcomes['missing-unit:style:rejected(%s)' % type(e).__name__] += 1
+        return
+    R.outcomes['missing-unit:style:accepted'] += 1
+    R.violation('missing-unit-accepted:style:%s' % kind,
+                'no unit is available for the %s values, which are bare numbers written '
+                'as %r (the other kinds presented as %r), but the file was loaded:\n%s'
+                % (kind, w['style'], m, text), w)
+
+
+def run_missing_styles(R):
+    for w in missing_style_cases():
+        run_missing_style_case(R, w)
+
+
+# ---- fifth wave: one group's data split over the files of an include tree
+
+def score():
+    """Records of the split family: the two-groups core and one record whose
+    reference values are both zero."""
+    return gcore() + [find(H=0.0, S=0.0, cp='four', range=(250.0, 1500.0), tref=298.15)]
+
+
+def split_units(n):
+    return (H_UNITS[n % len(H_UNITS)], S_UNITS[n % 4], S_UNITS[(n // 2) % 4], T_UNITS[n % 3])
+
+
+def split_cases(si):
+    """Two files: every split x all 9 pairs of value modes (the values of one
+    file move together) ; temperature modes, the units of each file and - for
+    a 298.15 K record - which of the files omit the T_ref line rotate."""
+    idx = score()[si]
+    rec = records()[idx]
+    n = 0
+    for a, b in Y.two_file_splits(rec):
+        for mA, mB in itertools.product(MODES, repeat=2):
+            n += 1
+            omit = [bool(n & 1), bool(n & 2)] if rec['tref'] == 298.15 else [False, False]
+            yield dict(kind='split', tree='two', record=idx, parts=[a, b], omit=omit,
+                       pres=[[mA] * 3 + [('default', 'explicit')[n % 2]] + list(split_units(n)),
+                             [mB] * 3 + [('default', 'explicit')[(n // 2) % 2]] +
+                             list(split_units(n + 1))])
+
+
+SPLIT3_MODES = [(m, m, m) for m in MODES] + [tuple(MODES[(i + j) % 3] for j in range(3))
+                                             for i in range(3)]
+
+
+def split3_cases(si):
+    """Three files (chain and fan): H, S and the rest in different files, all
+    6 assignments x 6 triples of value modes (all alike, all different)."""
+    idx = score()[si]
+    rec = records()[idx]
+    n = 0
+    for tree, parts in Y.three_file_splits(rec):
+        for ms in SPLIT3_MODES:
+            n += 1
+            omit = [bool((n + i) % 3 == 0) and rec['tref'] == 298.15 for i in range(3)]
+            yield dict(kind='split', tree=tree, record=idx, parts=parts, omit=omit,
+                       pres=[[m] * 3 + [('default', 'explicit')[(n + i) % 2]] +
+                             list(split_units(n + i)) for i, m in enumerate(ms)])
+
+
+def run_split_case(R, w):
+    R0 = gas_constant()
+    rec = records()[w['record']]
+    press = [tuple(p) for p in w['pres']]
+    texts = [render(Y.part(rec, ps), *p, R0, omit_tref=o)
+             for ps, p, o in zip(w['parts'], press, w['omit'])]
+    files = Y.lay_split(w['tree'], texts)
+    shown = '\n'.join('--- %s\n%s' % (p, files[p]) for p in sorted(files))
+    zero_inc = any((p == 'H' and rec['H'] == 0) or (p == 'S' and rec['S'] == 0)
+                   for ps in w['parts'][1:] for p in ps)
+    where = 'zero-in-included-file' if zero_inc else 'other'
+    R.evals += 1
+    R.nontrivial += 1
+    try:
+        k = load_files(files)[GROUP]['thermochem']
+    except Exception as e:      # noqa
+        R.outcomes['split:load-failed:' + type(e).__name__] += 1
+        R.violation('split:load-failed:%s:%s' % (type(e).__name__, where),
+                    '%r with its pieces %r in the files (loaded file, included ...; tree %r), '
+                    'presented as %r (T_ref line omitted: %r), could not be loaded: %s\n%s'
+                    % (short(rec), w['parts'], w['tree'], press, w['omit'], e, shown), w)
+        return
+    probs = judge(k, rec, max(press, key=tol_of), R0, base_cached(w['record'], R0))
+    R.outcomes['split:%s' % ('same' if not probs else 'differs')] += 1
+    if probs:
+        R.violation('split:%s:%s' % (probs[0].split(' ')[0], where),
+                    '%r with its pieces %r in the files (loaded file, included ...; tree %r), '
+                    'presented as %r (T_ref line omitted: %r): %s\n%s'
+                    % (short(rec), w['parts'], w['tree'], press, w['omit'], probs[0], shown), w)
+    elif w['tree'] == 'chain' and press[0][0] == 'default' and press[1][0] == 'explicit':
+        R.sample(dict(family='split', files=files), limit=1)
+
+
+def run_split(R, si, three):
+    for w in (split3_cases(si) if three else split_cases(si)):
+        run_split_case(R, w)
+
+
 CORE = None
 
 
@@ -1076,6 +1354,14 @@ def shards(tier, seed):
             out.append(('spelling', i, si))
     for layout in ('self',) + X.LAYOUTS:
         out.append(('layout', layout))
+    for i in fam_recs:
+        out.append(('shape', i, 0))
+        out.append(('shape', i, 1))
+        out.append(('style', i))
+    out.append(('missing-style',))
+    for si in range(len(score())):
+        out.append(('split', si, 0))
+        out.append(('split', si, 1))
     # each starts an interpreter of its own: spread, not at the ends of the list
     for n, pos in enumerate(X.HISTORY_POSITIONS):
         out.insert(30 + 25 * n, ('history', pos))
@@ -1110,6 +1396,14 @@ def _run_shard(shard, tier):
         run_layout(R, shard[1])
     elif shard[0] == 'history':
         run_history(R, shard[1])
+    elif shard[0] == 'shape':
+        run_shapes(R, shard[1], shard[2])
+    elif shard[0] == 'style':
+        run_styles(R, shard[1])
+    elif shard[0] == 'missing-style':
+        run_missing_styles(R)
+    elif shard[0] == 'split':
+        run_split(R, shard[1], shard[2])
     else:
         run_missing(R)
     return R
@@ -1135,6 +1429,10 @@ def replay(w):
         run_missing_layout_case(R, w)
     elif w['kind'] == 'history':
         run_histories(R, [w])
+    elif w['kind'] == 'missing-style':
+        run_missing_style_case(R, w)
+    elif w['kind'] == 'split':
+        run_split_case(R, w)
     drop_scratch()
     return dict(violates=bool(R.violations),
                 detail='\n'.join(v['msg'] for v in R.violations[:3]) or 'holds')
